@@ -979,8 +979,16 @@ def cold_eval(req):
                 if "x" in op:
                     # the defining value is an existing object: what it IS is its own number times its own unit's
                     # base value (the value that unit had when it was created), not what its spelling means now
+                    # Relative to the registry's own MKS base units (a registry that has redefined "m" itself
+                    # measures in_base("mks") in ITS metres; whether that is right is not a question of history),
+                    # and only for mechanical dimensions: electromagnetic ones are translated cgs <-> mks.
                     q = w.cold_operands["x"]
-                    out["expected"] = [float(q.value) * float(q.units.base_value), str(q.units.dimensions)]
+                    dstr = str(q.units.dimensions)
+                    if "current_mks" in dstr or "sqrt" in dstr or "/2)" in dstr or "logarithmic" in dstr:
+                        out["expected"] = None
+                    else:
+                        be = q.units.get_base_equivalent("mks")
+                        out["expected"] = [float(q.value) * float(q.units.base_value) / float(be.base_value), dstr]
                 elif op.get("form") == "quantity_default":
                     q = unyt.unyt_quantity(op["v"], op["s"])
                     out["expected"] = [float(q.in_base("mks").value), str(q.units.dimensions)]
